@@ -206,10 +206,13 @@ fn emit(cases: &mut Cases, case: u64, sc: &Scenario, outs: &[AdaptOut]) {
 
 // ------------------------------------------------------------------------------------- part B
 #[derive(Clone, Debug)]
-pub struct ChainCfg { pub lowrank: bool, pub dim: usize, pub logc: f64, pub rho: f64, pub num_tune: u64, pub seed: u64 }
+pub struct ChainCfg { pub lowrank: bool, pub dim: usize, pub logc: f64, pub rho: f64, pub num_tune: u64, pub seed: u64,
+    /// != 0: the target is D C D with C the identity except a correlation `pair` between the first two coordinates, and the DEFAULT eigenvalue
+    /// cut-off (2.0) is used: the two non-unit eigenvalues of the rescaled covariance lie on either side of 1, outside [1/2, 2]
+    pub pair: f64 }
 impl ChainCfg {
-    pub fn to_json(&self) -> serde_json::Value { json!({"lowrank": self.lowrank, "dim": self.dim, "logc": self.logc, "rho": self.rho, "num_tune": self.num_tune, "seed": self.seed.to_string()}) }
-    pub fn from_json(v: &serde_json::Value) -> ChainCfg { ChainCfg { lowrank: v["lowrank"].as_bool().unwrap(), dim: v["dim"].as_u64().unwrap() as usize, logc: v["logc"].as_f64().unwrap(), rho: v["rho"].as_f64().unwrap(), num_tune: v["num_tune"].as_u64().unwrap(), seed: v["seed"].as_str().unwrap().parse().unwrap() } }
+    pub fn to_json(&self) -> serde_json::Value { json!({"lowrank": self.lowrank, "dim": self.dim, "logc": self.logc, "rho": self.rho, "num_tune": self.num_tune, "seed": self.seed.to_string(), "pair": self.pair}) }
+    pub fn from_json(v: &serde_json::Value) -> ChainCfg { ChainCfg { lowrank: v["lowrank"].as_bool().unwrap(), dim: v["dim"].as_u64().unwrap() as usize, logc: v["logc"].as_f64().unwrap(), rho: v["rho"].as_f64().unwrap(), num_tune: v["num_tune"].as_u64().unwrap(), seed: v["seed"].as_str().unwrap().parse().unwrap() , pair: v["pair"].as_f64().unwrap_or(0.0) } }
     pub fn target(&self) -> Target {
         let mut r = Sm::new(self.seed, "C08T", 0);
         let d = self.dim;
@@ -218,6 +221,15 @@ impl ChainCfg {
         let far = self.seed % 3 == 0;
         let mu: Vec<f64> = (0..d).map(|i| r.range(-2.0, 2.0) * sd[i] * if far { 10f64.powf(r.range(2.0, 6.0)) } else { 1.0 }).collect();
         if !self.lowrank { return Target::new(Kind::Diag { mu, sigma: sd }, d); }
+        if self.pair != 0.0 && d >= 2 {
+            // precision D^-1 C^-1 D^-1 with C^-1 = 1/(1 - p^2) [[1, -p], [-p, 1]] on the first two coordinates
+            let p = self.pair;
+            let mut prec = vec![0.0; d * d];
+            for i in 0..d { prec[i * d + i] = 1.0 / (sd[i] * sd[i]); }
+            let q = 1.0 / (1.0 - p * p);
+            prec[0] = q / (sd[0] * sd[0]); prec[d + 1] = q / (sd[1] * sd[1]); prec[1] = -p * q / (sd[0] * sd[1]); prec[d] = prec[1];
+            return Target::new(Kind::Dense { mu, prec }, d);
+        }
         // covariance D (I + rho u u^T) D, precision D^-1 (I - rho/(1 + rho |u|^2) u u^T) D^-1
         let u: Vec<f64> = (0..d).map(|_| r.normal()).collect();
         let n2: f64 = u.iter().map(|x| x * x).sum();
@@ -252,7 +264,7 @@ pub fn run_chain(cfg: &ChainCfg) -> Result<(f64, u64, u64), String> {
         }
         Ok((worst, n, div))
     }}; }
-    if cfg.lowrank { let mut s = LowRankNutsSettings::default(); s.adapt_options.mass_matrix_options.eigval_cutoff = 1.00001; go!(s) } else { go!(DiagNutsSettings::default()) }
+    if cfg.lowrank { let mut s = LowRankNutsSettings::default(); if cfg.pair == 0.0 { s.adapt_options.mass_matrix_options.eigval_cutoff = 1.00001; } go!(s) } else { go!(DiagNutsSettings::default()) }
 }
 
 pub fn main(tier: &str, seed: u64, outdir: &str) {
@@ -282,7 +294,10 @@ pub fn main(tier: &str, seed: u64, outdir: &str) {
     for case in 0..nb {
         let mut r = Sm::new(seed, "C08B", case);
         let lowrank = case % 2 == 1;
-        let cfg = ChainCfg { lowrank, dim: 1 + r.below(if lowrank { 10 } else { 30 }) as usize, logc: r.range(0.0, 3.0), rho: r.range(2.0, 30.0), num_tune: if lowrank { 400 } else { 150 }, seed: r.next() };
+        let cfg = ChainCfg { lowrank, dim: 1 + r.below(if lowrank { 10 } else { 30 }) as usize, logc: r.range(0.0, 3.0), rho: r.range(2.0, 30.0), num_tune: if lowrank { 400 } else { 150 }, seed: r.next(), pair: 0.0 };
+        // every fourth low-rank chain: a strongly correlated pair under the default cut-off (eigenvalues below 1/2 must be retained as well)
+        let cfg = if lowrank && case % 8 == 3 { ChainCfg { dim: cfg.dim.max(2), pair: *r.pick(&[0.9, -0.9, 0.8, 0.95]), logc: cfg.logc.min(1.5), ..cfg } } else { cfg };
+        if cfg.pair != 0.0 { rep.hit("chain.lowrank.default_cutoff_pair"); }
         rep.evaluations += 1;
         rep.hit(if lowrank { "chain.lowrank" } else { "chain.diag" });
         let replay = json!({"kind": "chain", "cfg": cfg.to_json()});
